@@ -301,6 +301,16 @@ def run(ctx):
                        "former inputs / returned slices} up to N steps (N = 4 quick, 6 thorough), enumerated by TLC from "
                        "Ownership.tla; every region's data, spare capacity and guard zones plus the object's observable value "
                        "are logged after every step and judged by TLC")
+    ctx.assumptions += [
+        "an object's observable value is what the driver can see through the public API: Equal against a pristine deep copy, "
+        "accessor bytes / serialized key data, behaviour of primitives built from it before and after (randomized primitives "
+        "through a counterpart made from pristine material); the oracle is only that it does not change",
+        "one object per scenario; schedules bounded to 4 (quick) / 6 (thorough) steps; two buffer layouts (cap = len + 8, cap = "
+        "rest of the array), guard zones of 8 bytes, inputs of 0..5000 bytes",
+        "stateful objects (noncebased.Writer/Reader, Polyval) are compared with a twin fed with exact-size copies in lock-step",
+        "result/input aliasing is read from slice addresses (unsafe.SliceData); Go's collector does not move heap objects",
+        "values of type *big.Int and buffers the library hands to caller-implemented io.Reader / io.Writer are outside the check",
+    ]
     # ---------------- (M) the model: properties hold for the demanded library; every fault class is exposed
     def fault(item):
         f, inv = item
